@@ -97,7 +97,7 @@ void harness(void)
   if (process != NULL && process->status == ST_IN_PROGRESS) {
     plan_from(process->stop, process->deadline);
     gc.cfg_release_after_stop = true;
-    __CPROVER_assume(g.faults == 0);
+    __CPROVER_assume(g.e.faults == 0);
   }
   if (process != NULL && process->status == ST_IN_CHILD) {
     g.in_child = true;
@@ -111,7 +111,7 @@ void harness(void)
   /* C15: with the default policy destroy does not return before the child has
      exited and been reaped (unless a system call failed) */
   V_ASSERT("C15/destroy.default_policy_never_abandons_running_child",
-           IMPLIES(was_running && default_policy && g.faults == 0, g.child_reaped && g.reaps == 1));
+           IMPLIES(was_running && default_policy && g.e.faults == 0, g.child_reaped && g.reaps == 1));
   if (was_running && g.child_reaped) V_CANARY("api.destroy_reaped_reachable");
   if (was_running && default_policy && g.nsig > 0) V_CANARY("api.destroy_default_escalates_reachable");
   if (process == NULL) V_CANARY("api.destroy_null_reachable");
